@@ -30,6 +30,8 @@ def prop(pid, rule, assumptions=()):
 def run_both(ck, cases, release=False):
     """cases: list of dicts with 'line'.  Fills c['m'] and c['r'] (parsed results)."""
     lines = [c['line'] for c in cases]
+    if ck.tier == 'thorough' and not ck.stats.get('extraction_crosscheck_cases'):
+        extraction_crosscheck(ck, lines)
     ms = run_model(lines)
     rs = run_impl(lines, release=release)
     for c, m, r in zip(cases, ms, rs):
